@@ -61,8 +61,8 @@ func init() {
 		Assumptions: commonAssumptions,
 		Harnesses: []harnessSpec{
 			{Pkg: "flv", Func: "HarnessC09_Mux", Labels: []string{"mux"},
-				Bound:  "flags 2 symbolic bools; 1-2 tags; type 8 symbolic bits, timestamp 32 symbolic bits; first body 0-3 symbolic bytes or 255/256/65535/65536 bytes (3 symbolic positions, patterned filler), second body 0-3 symbolic bytes",
-				BoundT: "as quick with small bodies 0-8 and boundary sizes 255,256,65524,65525,65535,65536,65537,131071,2^20 and (muxer layout only) 2^24-1"},
+				Bound:  "flags 2 symbolic bools; 1-2 tags; type 8 symbolic bits, timestamp 32 symbolic bits; first body 0-3 symbolic bytes or 255/256/65535/65536/2^24-1 bytes (3 symbolic positions, patterned filler), second body 0-3 symbolic bytes",
+				BoundT: "as quick with small bodies 0-8 and boundary sizes 255,256,65524,65525,65535,65536,65537,131071,2^20 and (muxer layout only) 2^24-12, 2^24-11, 2^24-1"},
 			{Pkg: "flv", Func: "HarnessC09_RoundTrip", Labels: []string{"roundtrip"},
 				Bound: "as Mux; reader segmentation: whole / fixed chunks (1 byte for files <= 64 bytes, else 4093) / one split point at every offset (files <= 40 bytes) or within +-2 of every structural boundary"},
 			{Pkg: "flv", Func: "HarnessC09_RefDemux", Labels: []string{"refdemux"},
